@@ -403,8 +403,9 @@ func runStreamOne(e *Env, i int, prop string) (cases []string) {
 		if err := cs.s.WriteMessage(ptr(streamMsg(cs.tag, 999, 0))); err != rpc.ErrStreamShutdown {
 			fail("C10-write-after-close", fmt.Sprintf("WriteMessage on a closed stream returned %v", err))
 		}
-		var m []byte
-		if err := cs.s.ReadMessage(nil, &m); err != rpc.ErrStreamShutdown {
+		if _, err, ok := readWithTimeout(cs.s, 3*time.Second); !ok {
+			fail("C10-read-after-close", "a ReadMessage started on a closed stream blocks")
+		} else if err != rpc.ErrStreamShutdown {
 			fail("C10-read-after-close", fmt.Sprintf("ReadMessage on a closed stream returned %v", err))
 		}
 		// siblings still work
@@ -807,6 +808,12 @@ func streamMultiReader(e *Env) {
 				e.fail(pid+"-stream-reader-stays-blocked", fmt.Sprintf("%d of %d goroutines blocked in ReadMessage on one stream were still blocked 3s after %s", readers-got, readers, how), desc)
 				break wait
 			}
+		}
+		// a read started only now, after the end, returns at once as well
+		if _, err, ok := readWithTimeout(s, 3*time.Second); !ok {
+			e.fail(pid+"-stream-reader-stays-blocked", fmt.Sprintf("a ReadMessage started after its stream had ended (%s) blocks", how), desc)
+		} else if err != rpc.ErrStreamShutdown {
+			e.fail(pid+"-blocked-read-error-kind", fmt.Sprintf("a ReadMessage started after its stream had ended (%s) returned %v", how, err), desc)
 		}
 		r.conn.Close()
 		r.cliRW.Close()
